@@ -22,6 +22,7 @@ expanded against the CURRENT snapshot of /repo:
   //@                                            a syntactic substitution listed under extraction_drops
   //@   proof after `<stmt text>`: <verus proof text>         inserts `proof { .. }` after the statement
   //@   proof before `<stmt text>`: <verus proof text>
+  //@   proof begin: <verus proof text>                        opens the function body (no anchor)
   //@   noret                                   do not rename the return type
   //@ end
   //@ verbatim: <ID>                            inside an external_body helper: replaced by the source text
@@ -542,6 +543,10 @@ def _insert_loop_specs(body, ex, emit_clause):
 
 def _insert_proofs(body, ex, fn_disp):
     for where, stmt, ptxt in ex.proofs:
+        if where == "begin":
+            # no statement anchor: the proof text opens the function body (robust against any edit of the body)
+            body = "\n    proof { %s }\n    " % ptxt + body
+            continue
         rx = re.compile(_tok_regex(stmt))
         ms = list(rx.finditer(body))
         if len(ms) != 1:
@@ -893,6 +898,10 @@ def _parse_extract_directive(ex, e):
         a, b = _bt_pair(pair)
         ex.outlines.append((oid.strip(), a, b, kind))
     elif e.startswith("proof "):
+        mb = re.match(r"proof\s+begin\s*:\s*(.*)$", e, re.S)
+        if mb:
+            ex.proofs.append(("begin", "", mb.group(1)))
+            return
         m = re.match(r"proof\s+(after|before)\s+`(.*?)`\s*:\s*(.*)$", e, re.S)
         if not m:
             raise SpecError("bad proof directive: " + e)
